@@ -168,7 +168,7 @@ def create_target_file_name(
     if prefix:
         prefix = prefix.removesuffix(".")  # remove trailing '.', if existing
         prefix = f"{prefix}."
-        file_name = prefix + re.sub(pattern=f"^{prefix}", repl="", string=file_name)
+        file_name = prefix + re.sub(pattern=f"^{re.escape(prefix)}", repl="", string=file_name)
 
     # If an output format is specified: Set file ending to match the output format
     if output:
